@@ -106,6 +106,35 @@ Theorem known_short_list_exact : forall H peers kd n,
   KnownShortList peers n -> ~ returns_requested_or_error (sort_peers_by_key H peers kd n) n.
 Proof. exact requested_or_error_fails_inside_known. Qed.
 
+(* ---- Network::get_all_close_peers_in_range_or_close_group (client and node path) *)
+
+(* A client never counts nor ranks itself: with `others` = the found peers minus every copy of its own id,
+   the result is the CLOSE_GROUP_SIZE + CLOSE_GROUP_SIZE/2 = 7 nearest OTHER peers in ascending distance (all of
+   them if fewer), never containing the client, and NotEnoughPeers is reported exactly when fewer than
+   CLOSE_GROUP_SIZE others are known, with found = |others|. *)
+Theorem close_peers_client_spec : forall H self_peer found key,
+  let others := drop_self self_peer found in
+  expanded_close_group = 7 /\
+  (forall p, In p others <-> In p found /\ p <> self_peer) /\
+  match get_all_close_peers H self_peer true found key with
+  | SortOk l =>
+      CLOSE_GROUP_SIZE <= N.of_nat (List.length others) /\
+      l = firstn (N.to_nat expanded_close_group) (sort_by (key_peer_distance H (kbucket_key H key)) others) /\
+      N.of_nat (List.length l) = N.min expanded_close_group (N.of_nat (List.length others)) /\
+      ~ In self_peer l /\
+      sorted_by (key_peer_distance H (kbucket_key H key)) l
+  | NotEnoughPeers f r =>
+      N.of_nat (List.length others) < CLOSE_GROUP_SIZE /\ f = N.of_nat (List.length others) /\ r = CLOSE_GROUP_SIZE
+  end.
+Proof.
+  intros H self_peer found key. cbn zeta. split; [reflexivity|]. split; [intros p; apply drop_self_in|].
+  exact (close_peers_client_lemma H self_peer found key).
+Qed.
+
+Theorem close_peers_node_spec : forall H self_peer found key,
+  get_all_close_peers H self_peer false found key = sort_peers_by_address H found key expanded_close_group.
+Proof. exact close_peers_node_lemma. Qed.
+
 (* ---- range filters *)
 
 Theorem range_filter_exact : forall H, (forall x, H x < 2 ^ 256) -> forall peers a r,
